@@ -5,17 +5,6 @@ Local Open Scope nat_scope.
 (* ---------------------------------------------------------------------------------------------- *)
 (* lists                                                                                           *)
 (* ---------------------------------------------------------------------------------------------- *)
-Lemma upd_length h i n : length (upd h i n) = length h.
-Proof. revert i; induction h as [|x r IH]; intros [|j]; simpl; auto. Qed.
-
-Lemma nth_error_upd h i n j : i < length h ->
-  nth_error (upd h i n) j = if Nat.eqb j i then Some n else nth_error h j.
-Proof.
-  revert i j; induction h as [|x r IH]; intros i j Hi; simpl in Hi; [lia|].
-  destruct i as [|i], j as [|j]; simpl; auto.
-  rewrite IH by lia. reflexivity.
-Qed.
-
 Lemma nth_error_Some_lt {A} (l : list A) i x : nth_error l i = Some x -> i < length l.
 Proof. intros H. apply nth_error_Some. congruence. Qed.
 
@@ -84,49 +73,18 @@ Proof. destruct a, b; simpl; split; congruence. Qed.
 Definition trel (t t' : tens) : Prop :=
   t_kind t' = t_kind t /\ t_content t' = t_content t /\ t_prec t' = target_prec c t
   /\ (c_copy c = true -> nsb <= t_storage t').
-Definition pre (t t1 : tens) : Prop := t1 = t \/ trel t t1.
+(* tensors of a module field: always in a fresh storage *)
+Definition mrel (t t' : tens) : Prop :=
+  t_kind t' = t_kind t /\ t_content t' = t_content t /\ t_prec t' = target_prec c t /\ nsb <= t_storage t'.
 
-Definition tstep (s : nat) (t : tens) : tens := if needs_new c t then conv_tens c s t else t.
-
-Lemma target_prec_kind t t' : t_kind t' = t_kind t -> t_prec t' = target_prec c t -> target_prec c t' = target_prec c t.
+Lemma conv_module_spec ts : forall s ts2 s', nsb <= s ->
+  conv_module c ts s = (ts2, s') -> Forall2 mrel ts ts2 /\ s <= s'.
 Proof.
-  unfold target_prec, new_dtype. intros -> Hp.
-  destruct (c_dtype c) as [d|]; [destruct (t_kind t); simpl; auto|]; simpl; auto.
-  all: revert Hp; unfold target_prec, new_dtype; simpl; auto.
-Qed.
-
-Lemma trel_tstep_self t s : nsb <= s -> trel t (tstep s t).
-Proof.
-  intros Hs. unfold tstep, trel. destruct (needs_new c t) eqn:E; simpl.
-  - repeat split; auto.
-  - unfold needs_new in E. apply orb_false_iff in E as [Ec Ep].
-    apply negb_false_iff, prec_eqb_eq in Ep. repeat split; auto. congruence.
-Qed.
-
-Lemma trel_tstep t t1 s : trel t t1 -> nsb <= s -> trel t (tstep s t1).
-Proof.
-  intros (Hk & Hc & Hp & Hs) Hle. pose proof (target_prec_kind t t1 Hk Hp) as Ht.
-  unfold tstep. destruct (needs_new c t1) eqn:E; simpl.
-  - unfold trel; simpl. repeat split; auto.
-  - repeat split; auto.
-Qed.
-
-Lemma pre_tstep t t1 s : pre t t1 -> nsb <= s -> trel t (tstep s t1).
-Proof. intros [->|H] Hs; [apply trel_tstep_self|eapply trel_tstep]; eauto. Qed.
-
-Lemma conv_module_spec ts : forall ts1 s ts2 s', Forall2 pre ts ts1 -> nsb <= s ->
-  conv_module c ts1 s = (ts2, s') -> Forall2 trel ts ts2 /\ s <= s'.
-Proof.
-  induction ts as [|t r IH]; intros ts1 s ts2 s' HF Hs Hc; inversion HF; subst; simpl in Hc.
+  induction ts as [|t r IH]; intros s ts2 s' Hs Hc; simpl in Hc.
   - injection Hc as <- <-. split; [constructor|lia].
-  - match goal with H : pre t ?y |- _ => rename H into Hp; rename y into t1 end.
-    match goal with H : Forall2 pre r ?l |- _ => rename H into Hr; rename l into r1 end.
-    pose proof (pre_tstep t t1 s Hp Hs) as Hstep. unfold tstep in Hstep.
-    destruct (needs_new c t1) eqn:E.
-    + destruct (conv_module c r1 (S s)) as [r' s1] eqn:Er. injection Hc as <- <-.
-      destruct (IH r1 (S s) r' s1 Hr ltac:(lia) Er) as [H1 H2]. split; [constructor; auto|lia].
-    + destruct (conv_module c r1 s) as [r' s1] eqn:Er. injection Hc as <- <-.
-      destruct (IH r1 s r' s1 Hr Hs Er) as [H1 H2]. split; [constructor; auto|lia].
+  - destruct (conv_module c r (S s)) as [r' s1] eqn:Er. injection Hc as <- <-.
+    destruct (IH (S s) r' s1 ltac:(lia) Er) as [H1 H2]. split; [|lia]. constructor; auto.
+    unfold mrel; simpl. auto.
 Qed.
 
 (* ---------------------------------------------------------------------------------------------- *)
@@ -134,64 +92,36 @@ Qed.
 (* ---------------------------------------------------------------------------------------------- *)
 Definition n0 := length h0.
 
-(* how a node of the source heap may look in the current heap *)
-Definition node_now (n : node) (cur : option node) : Prop :=
-  match n with
-  | NModule ts => exists ts1, cur = Some (NModule ts1) /\ Forall2 pre ts ts1
-  | _ => cur = Some n
-  end.
-
-Record HI (st : state) : Prop := {
-  hi_len : n0 <= length (s_heap st);
-  hi_old : forall i n, nth_error h0 i = Some n -> node_now n (nth_error (s_heap st) i);
-  hi_next : nsb <= s_next st;
-  hi_copy : c_copy c = true -> forall i n, nth_error h0 i = Some n -> nth_error (s_heap st) i = Some n
-}.
-
-Definition not_module (i : nat) : Prop := forall ts, nth_error h0 i <> Some (NModule ts).
-
-(* how the heap may evolve: everything except the source's module nodes is immutable; converted modules stay converted *)
-Record ext (h h' : heap) : Prop := {
-  e_len : length h <= length h';
-  e_keep : forall i, i < length h -> not_module i -> nth_error h' i = nth_error h i;
-  e_mod : forall i ts ts1, nth_error h0 i = Some (NModule ts) -> nth_error h i = Some (NModule ts1) ->
-          Forall2 trel ts ts1 -> exists ts2, nth_error h' i = Some (NModule ts2) /\ Forall2 trel ts ts2
-}.
+(* the heap only grows *)
+Definition ext (h h' : heap) : Prop := exists e, h' = h ++ e.
 
 Lemma ext_refl h : ext h h.
-Proof. constructor; eauto. Qed.
-
+Proof. exists []. now rewrite app_nil_r. Qed.
 Lemma ext_trans a b d : ext a b -> ext b d -> ext a d.
-Proof.
-  intros [l1 k1 m1] [l2 k2 m2]. constructor.
-  - lia.
-  - intros i Hi Hn. rewrite k2 by (auto; lia). now apply k1.
-  - intros i ts ts1 H0 H1 HF. destruct (m1 i ts ts1 H0 H1 HF) as (ts2 & H2 & HF2). eauto.
-Qed.
-
+Proof. intros [e1 ->] [e2 ->]. exists (e1 ++ e2). now rewrite app_assoc. Qed.
 Lemma ext_app h e : ext h (h ++ e).
-Proof.
-  constructor.
-  - rewrite app_length; lia.
-  - intros i Hi _. now rewrite nth_error_app1.
-  - intros i ts ts1 _ H1 HF. exists ts1. split; auto. now apply nth_error_app_old.
-Qed.
+Proof. now exists e. Qed.
+Lemma ext_keep_some h h' i n : ext h h' -> nth_error h i = Some n -> nth_error h' i = Some n.
+Proof. intros [e ->] H. now apply nth_error_app_old. Qed.
+Lemma ext_len h h' : ext h h' -> length h <= length h'.
+Proof. intros [e ->]. rewrite app_length. lia. Qed.
 
-Lemma ext_keep_some h h' i n : ext h h' -> nth_error h i = Some n -> not_module i -> nth_error h' i = Some n.
-Proof. intros E H Hn. rewrite (e_keep _ _ E); auto. eapply nth_error_Some_lt; eauto. Qed.
+Record HI (st : state) : Prop := {
+  hi_ext : ext h0 (s_heap st);
+  hi_next : nsb <= s_next st
+}.
 
-Lemma not_module_new i : n0 <= i -> not_module i.
-Proof.
-  intros Hi ts H. apply nth_error_Some_lt in H. unfold n0 in Hi. lia.
-Qed.
+Lemma hi_old st i n : HI st -> nth_error h0 i = Some n -> nth_error (s_heap st) i = Some n.
+Proof. intros [E _] H. eapply ext_keep_some; eauto. Qed.
+Lemma hi_len st : HI st -> n0 <= length (s_heap st).
+Proof. intros [E _]. apply ext_len. exact E. Qed.
 
 (* what "y is the converted d" means for tensors, modules and plain objects *)
 Definition leaf_good (hp : heap) (d y : nat) : Prop :=
   match nth_error h0 d with
   | Some (NTensor t) => exists t', nth_error hp y = Some (NTensor t') /\ trel t t' /\ (y = d \/ n0 <= y)
                                   /\ (c_copy c = true -> n0 <= y)
-  | Some (NModule ts) => exists ts', nth_error hp y = Some (NModule ts') /\ Forall2 trel ts ts' /\ (y = d \/ n0 <= y)
-                                    /\ (c_copy c = true -> n0 <= y)
+  | Some (NModule ts) => exists ts', nth_error hp y = Some (NModule ts') /\ Forall2 mrel ts ts' /\ n0 <= y
   | Some (NPlain ct m) => nth_error hp y = Some (NPlain ct m) /\ (y = d \/ n0 <= y)
                           /\ (c_copy c = true -> m = true -> n0 <= y)
   | _ => False
@@ -201,23 +131,17 @@ Definition good (M : list (nat * nat)) (hp : heap) (d y : nat) : Prop :=
   match nth_error h0 d with
   | Some (NMixin fs) => exists ys, nth_error hp y = Some (NMixin ys) /\ n0 <= y
                                   /\ Forall2 (fun a b => lookup a M = Some b) fs ys
-  | Some (NSpatial fs) => exists ys, nth_error hp y = Some (NSpatial ys) /\ n0 <= y /\ Forall2 (leaf_good hp) fs ys
+  | Some (NSpatial fs) => exists ys, nth_error hp y = Some (NSpatial ys) /\ n0 <= y
+                                  /\ Forall2 (fun a b => lookup a M = Some b) fs ys
   | _ => leaf_good hp d y
   end.
-
-Lemma pos_not_module d y : (y = d \/ n0 <= y) -> not_module d -> not_module y.
-Proof. intros [->|H] Hn; auto using not_module_new. Qed.
 
 Lemma leaf_good_stable hp hp' d y : leaf_good hp d y -> ext hp hp' -> leaf_good hp' d y.
 Proof.
   intros Hg E. unfold leaf_good in *. destruct (nth_error h0 d) as [[t|fs|fs|ts|ct m]|] eqn:E0; auto.
-  - destruct Hg as (t' & Hy & Hr & Hpos & Hc). exists t'. split; [|tauto].
-    eapply ext_keep_some; eauto. eapply pos_not_module; eauto. intros ts H. congruence.
-  - destruct Hg as (ts' & Hy & Hr & Hpos & Hc). destruct Hpos as [->|Hpos].
-    + destruct (e_mod _ _ E d ts ts' E0 Hy Hr) as (ts2 & H2 & HF2). exists ts2. split; [auto|]. split; [auto|]. tauto.
-    + exists ts'. split; [|tauto]. eapply ext_keep_some; eauto using not_module_new.
-  - destruct Hg as (Hy & Hpos & Hc). split; [|tauto].
-    eapply ext_keep_some; eauto. eapply pos_not_module; eauto. intros ts H. congruence.
+  - destruct Hg as (t' & Hy & Hr). exists t'. split; [|exact Hr]. eapply ext_keep_some; eauto.
+  - destruct Hg as (ts' & Hy & Hr). exists ts'. split; [|exact Hr]. eapply ext_keep_some; eauto.
+  - destruct Hg as (Hy & Hr). split; [|exact Hr]. eapply ext_keep_some; eauto.
 Qed.
 
 Lemma good_stable M M' hp hp' d y : good M hp d y -> ext hp hp' -> mext M M' -> good M' hp' d y.
@@ -225,11 +149,11 @@ Proof.
   intros Hg E HM. unfold good in *. destruct (nth_error h0 d) as [[t|fs|fs|ts|ct m]|] eqn:E0;
     try (eapply leaf_good_stable; eauto).
   - destruct Hg as (ys & Hy & Hn & HF). exists ys. split; [|split; [auto|]].
-    + eapply ext_keep_some; eauto using not_module_new.
+    + eapply ext_keep_some; eauto.
     + eapply Forall2_impl; [|exact HF]. intros a b Hab. simpl in *. auto.
   - destruct Hg as (ys & Hy & Hn & HF). exists ys. split; [|split; [auto|]].
-    + eapply ext_keep_some; eauto using not_module_new.
-    + eapply Forall2_impl; [|exact HF]. intros a b Hab. eapply leaf_good_stable; eauto.
+    + eapply ext_keep_some; eauto.
+    + eapply Forall2_impl; [|exact HF]. intros a b Hab. simpl in *. auto.
 Qed.
 
 Definition MI (st : state) : Prop := forall d y, lookup d (s_memo st) = Some y -> good (s_memo st) (s_heap st) d y.
@@ -239,97 +163,34 @@ Definition MI (st : state) : Prop := forall d y, lookup d (s_memo st) = Some y -
 (* ---------------------------------------------------------------------------------------------- *)
 Lemma HI_app st e nx : HI st -> s_next st <= nx -> HI (mkS (s_heap st ++ e) (s_memo st) nx).
 Proof.
-  intros [l o n cp] Hn. constructor; simpl.
-  - rewrite app_length; lia.
-  - intros i nd Hi. specialize (o i nd Hi). destruct nd; simpl in *;
-      try (now apply nth_error_app_old).
-    destruct o as (ts1 & H1 & HF). exists ts1. split; auto. now apply nth_error_app_old.
-  - lia.
-  - intros Hc i nd Hi. apply nth_error_app_old. auto.
+  intros [E n] Hn. constructor; simpl; [|lia]. eapply ext_trans; [exact E|apply ext_app].
 Qed.
 
-Lemma conv_leaf_ok st d nd0 nd y st' :
-  HI st -> nth_error h0 d = Some nd0 -> nth_error (s_heap st) d = Some nd ->
-  conv_leaf c d nd st = Some (y, st') ->
+Lemma conv_leaf_ok st d nd y st' :
+  HI st -> nth_error h0 d = Some nd -> conv_leaf c d nd st = Some (y, st') ->
   HI st' /\ ext (s_heap st) (s_heap st') /\ leaf_good (s_heap st') d y /\ s_memo st' = s_memo st.
 Proof.
-  intros H Hd0 Hd Hc. pose proof (hi_old _ H _ _ Hd0) as Hnow.
-  assert (Hdl : d < n0) by (eapply nth_error_Some_lt; eauto).
+  intros H Hd0 Hc. pose proof (hi_old _ _ _ H Hd0) as Hd.
   pose proof (hi_len _ H) as Hlen. pose proof (hi_next _ H) as Hnx.
-  destruct nd as [t|fs|fs|ts1|ct m]; simpl in Hc; try discriminate.
-  - (* tensor *)
-    assert (nd0 = NTensor t) as ->.
-    { destruct nd0; simpl in Hnow; try congruence. destruct Hnow as (? & ? & _); congruence. }
-    destruct (needs_new c t) eqn:En; injection Hc as <- <-.
+  destruct nd as [t|fs|fs|ts|ct m]; simpl in Hc; try discriminate.
+  - destruct (needs_new c t) eqn:En; injection Hc as <- <-.
     + split; [apply HI_app; simpl; auto|]. split; [apply ext_app|]. split; auto.
       unfold leaf_good. rewrite Hd0. cbn [s_heap]. exists (conv_tens c (s_next st) t). rewrite nth_error_snoc.
-      split; auto. split; [|split; intros; right + idtac; lia].
-      pose proof (trel_tstep_self t (s_next st) Hnx) as Ht. unfold tstep in Ht. now rewrite En in Ht.
+      split; auto. split; [unfold trel; simpl; auto|]. split; [right; exact Hlen|intros; exact Hlen].
     + split; auto. split; [apply ext_refl|]. split; auto.
       unfold leaf_good. rewrite Hd0. exists t. split; auto.
-      pose proof (trel_tstep_self t (s_next st) Hnx) as Ht. unfold tstep in Ht. rewrite En in Ht.
-      split; auto. split; auto. intros Hcp. unfold needs_new in En. rewrite Hcp in En. discriminate.
-  - (* module *)
-    destruct nd0 as [?|?|?|ts|? ?]; simpl in Hnow; try congruence.
-    destruct Hnow as (ts1' & Heq & Hpre). assert (ts1' = ts1) as -> by congruence.
-    destruct (conv_module c ts1 (s_next st)) as [ts2 s2] eqn:Em.
-    destruct (conv_module_spec ts ts1 _ _ _ Hpre Hnx Em) as [HF Hs].
-    destruct (c_copy c) eqn:Ecp; injection Hc as <- <-.
+      unfold needs_new in En. apply orb_false_iff in En as [Ec Ep]. apply negb_false_iff, prec_eqb_eq in Ep.
+      split; [unfold trel; repeat split; auto; congruence|]. split; auto. intros Hcp. congruence.
+  - destruct (conv_module c ts (s_next st)) as [ts2 s2] eqn:Em.
+    destruct (conv_module_spec ts _ _ _ Hnx Em) as [HF Hs]. injection Hc as <- <-.
+    split; [apply HI_app; simpl; auto|]. split; [apply ext_app|]. split; auto.
+    unfold leaf_good. rewrite Hd0. cbn [s_heap]. exists ts2. rewrite nth_error_snoc. auto.
+  - destruct (c_copy c && m) eqn:En; injection Hc as <- <-.
     + split; [apply HI_app; simpl; auto|]. split; [apply ext_app|]. split; auto.
-      unfold leaf_good. rewrite Hd0. cbn [s_heap]. exists ts2. rewrite nth_error_snoc. repeat split; auto; intros; lia.
-    + assert (Hdl' : d < length (s_heap st)) by lia.
-      split; [|split; [|split]]; simpl; auto.
-      * constructor; simpl.
-        -- rewrite upd_length. lia.
-        -- intros i nd Hi. rewrite nth_error_upd by lia. destruct (Nat.eqb i d) eqn:Ei.
-           ++ apply Nat.eqb_eq in Ei. subst i. assert (nd = NModule ts) as -> by congruence. simpl.
-              exists ts2. split; auto. eapply Forall2_impl; [|exact HF]. intros; right; auto.
-           ++ exact (hi_old _ H _ _ Hi).
-        -- lia.
-        -- intros Hcp; congruence.
-      * constructor.
-        -- rewrite upd_length; lia.
-        -- intros i Hi Hnm. rewrite nth_error_upd by lia. destruct (Nat.eqb i d) eqn:Ei; auto.
-           apply Nat.eqb_eq in Ei. subst i. exfalso. eapply Hnm; eauto.
-        -- intros i ts0 ts0' Hi0 Hi1 HF0. rewrite nth_error_upd by lia. destruct (Nat.eqb i d) eqn:Ei; eauto.
-           apply Nat.eqb_eq in Ei. subst i. assert (ts0 = ts) as -> by congruence. eauto.
-      * unfold leaf_good. rewrite Hd0. cbn [s_heap]. exists ts2. rewrite nth_error_upd by lia. rewrite Nat.eqb_refl.
-        split; [auto|]. split; [auto|]. split; [auto|]. intros; congruence.
-  - (* plain *)
-    assert (nd0 = NPlain ct m) as ->.
-    { destruct nd0; simpl in Hnow; try congruence. destruct Hnow as (? & ? & _); congruence. }
-    destruct (c_copy c && m) eqn:En; injection Hc as <- <-.
-    + split; [apply HI_app; simpl; auto|]. split; [apply ext_app|]. split; auto.
-      unfold leaf_good. rewrite Hd0. cbn [s_heap]. rewrite nth_error_snoc. repeat split; auto; intros; lia.
+      unfold leaf_good. rewrite Hd0. cbn [s_heap]. rewrite nth_error_snoc.
+      split; [reflexivity|]. split; [right; exact Hlen|intros; exact Hlen].
     + split; auto. split; [apply ext_refl|]. split; auto.
-      unfold leaf_good. rewrite Hd0. repeat split; auto. intros Hcp Hm. rewrite Hcp, Hm in En. discriminate.
-Qed.
-
-(* SpatialDimension: its own memo *)
-Lemma leaf_loop_ok fs : forall lm st ys st',
-  HI st -> Forall (fun x => exists nd, nth_error h0 x = Some nd) fs ->
-  (forall a b, lookup a lm = Some b -> leaf_good (s_heap st) a b) ->
-  leaf_loop c fs lm st = Some (ys, st') ->
-  HI st' /\ ext (s_heap st) (s_heap st') /\ Forall2 (leaf_good (s_heap st')) fs ys /\ s_memo st' = s_memo st.
-Proof.
-  induction fs as [|x r IH]; intros lm st ys st' H Hsrc Hlm Hl; simpl in Hl.
-  - injection Hl as <- <-. split; [auto|]. split; [apply ext_refl|]. split; [constructor|reflexivity].
-  - inversion Hsrc as [|? ? [nd0 Hx0] Hr]; subst.
-    destruct (lookup x lm) as [y|] eqn:El.
-    + destruct (leaf_loop c r lm st) as [[ys1 st1]|] eqn:E1; [|discriminate]. injection Hl as <- <-.
-      destruct (IH lm st ys1 st1 H Hr Hlm E1) as (H1 & X1 & F1 & M1). split; [auto|]. split; [auto|]. split; [|auto].
-      constructor; auto. eapply leaf_good_stable; eauto.
-    + destruct (nth_error (s_heap st) x) as [nd|] eqn:Ex; [|discriminate].
-      destruct (conv_leaf c x nd st) as [[y st1]|] eqn:Ec; [|discriminate].
-      destruct (leaf_loop c r ((x, y) :: lm) st1) as [[ys2 st2]|] eqn:E2; [|discriminate]. injection Hl as <- <-.
-      destruct (conv_leaf_ok st x nd0 nd y st1 H Hx0 Ex Ec) as (H1 & X1 & G1 & M1).
-      assert (Hlm1 : forall a b, lookup a ((x, y) :: lm) = Some b -> leaf_good (s_heap st1) a b).
-      { intros a b Hab. destruct (Nat.eq_dec x a) as [->|Hne].
-        - rewrite lookup_cons_eq in Hab. injection Hab as <-. auto.
-        - rewrite lookup_cons_ne in Hab by auto. eapply leaf_good_stable; eauto. }
-      destruct (IH _ st1 ys2 st2 H1 Hr Hlm1 E2) as (H2 & X2 & F2 & M2).
-      split; auto. split; [eapply ext_trans; eauto|]. split; [|congruence].
-      constructor; auto. eapply leaf_good_stable; eauto.
+      unfold leaf_good. rewrite Hd0. split; auto. split; auto. intros Hcp Hm. rewrite Hcp, Hm in En. discriminate.
 Qed.
 
 (* ---------------------------------------------------------------------------------------------- *)
@@ -355,7 +216,18 @@ Definition conv_spec (convf : nat -> state -> option (nat * state)) (x : nat) : 
     /\ good (s_memo st') (s_heap st') x y.
 
 Lemma HI_memo st m : HI st -> HI (mkS (s_heap st) m (s_next st)).
-Proof. intros [a b d e]. constructor; simpl; auto. Qed.
+Proof. intros [a b]. constructor; simpl; auto. Qed.
+
+Lemma MI_add st x y : MI st -> lookup x (s_memo st) = None -> good (s_memo st) (s_heap st) x y ->
+  MI (add_memo x y st).
+Proof.
+  intros HM Hn Hg d y' Hd. unfold add_memo in *. simpl in *.
+  assert (Hadd : mext (s_memo st) ((x, y) :: s_memo st)) by (apply mext_add; exact Hn).
+  destruct (Nat.eq_dec x d) as [->|Hne].
+  - rewrite Nat.eqb_refl in Hd. injection Hd as <-. eapply good_stable; eauto using ext_refl.
+  - destruct (Nat.eqb x d) eqn:Ee; [apply Nat.eqb_eq in Ee; contradiction|].
+    eapply good_stable; [apply HM; exact Hd|apply ext_refl|exact Hadd].
+Qed.
 
 Lemma field_loop_ok convf bound : (forall x, x < bound -> conv_spec convf x) ->
   forall fs st ys st', Forall (fun x => x < bound /\ exists nd, nth_error h0 x = Some nd) fs ->
@@ -377,13 +249,8 @@ Proof.
       destruct (Hspec x Hxb st y st1 Hx0 H HM Ec) as (H1 & X1 & M1 & Me1 & K1 & G1).
       assert (Hnone : lookup x (s_memo st1) = None) by (rewrite K1 by lia; exact El).
       assert (Hadd : mext (s_memo st1) ((x, y) :: s_memo st1)) by (apply mext_add; exact Hnone).
-      assert (H1' : HI (add_memo x y st1)) by (apply HI_memo; exact H1).
-      assert (M1' : MI (add_memo x y st1)).
-      { intros d y' Hd. unfold add_memo in *. simpl in *. destruct (Nat.eq_dec x d) as [->|Hne].
-        - rewrite Nat.eqb_refl in Hd. injection Hd as <-. eapply good_stable; eauto using ext_refl.
-        - destruct (Nat.eqb x d) eqn:Ee; [apply Nat.eqb_eq in Ee; contradiction|].
-          eapply good_stable; [apply M1; exact Hd|apply ext_refl|exact Hadd]. }
-      destruct (IH (add_memo x y st1) ys2 st2 Hr H1' M1' E2) as (H2 & X2 & M2 & Me2 & K2 & F2).
+      destruct (IH (add_memo x y st1) ys2 st2 Hr (HI_memo _ _ H1) (MI_add st1 x y M1 Hnone G1) E2)
+        as (H2 & X2 & M2 & Me2 & K2 & F2).
       unfold add_memo in X2, Me2, K2; cbn [s_heap s_memo s_next] in X2, Me2, K2.
       split; [auto|]. split; [eapply ext_trans; eauto|]. split; [auto|].
       split; [eapply mext_trans; [exact Me1|eapply mext_trans; [exact Hadd|exact Me2]]|].
@@ -395,15 +262,17 @@ Qed.
 Lemma conv_ok fuel : forall x, conv_spec (conv fuel c) x.
 Proof.
   induction fuel as [|f IH]; intros x st y st' [nd0 Hx0] H HM Hc; simpl in Hc; [discriminate|].
-  pose proof (hi_old _ H _ _ Hx0) as Hnow. pose proof (hi_len _ H) as Hlen.
-  destruct nd0 as [t|fs|fs|ts|ct m]; simpl in Hnow.
-  - rewrite Hnow in Hc. destruct (conv_leaf_ok st x _ _ y st' H Hx0 Hnow Hc) as (H1 & X1 & G1 & M1).
+  rewrite (hi_old _ _ _ H Hx0) in Hc.
+  assert (Hleaf : forall nd, nd0 = nd -> conv_leaf c x nd st = Some (y, st') -> (good (s_memo st') (s_heap st') x y <-> leaf_good (s_heap st') x y) ->
+    HI st' /\ ext (s_heap st) (s_heap st') /\ MI st' /\ mext (s_memo st) (s_memo st')
+    /\ (forall k, x <= k -> lookup k (s_memo st') = lookup k (s_memo st)) /\ good (s_memo st') (s_heap st') x y).
+  { intros nd -> Hcl Hiff. destruct (conv_leaf_ok st x _ y st' H Hx0 Hcl) as (H1 & X1 & G1 & M1).
     split; [auto|]. split; [auto|]. split; [|split; [rewrite M1; apply mext_refl|split; [intros; now rewrite M1|]]].
-    + intros d y' Hd. rewrite M1 in *. eapply good_stable; [apply HM; exact Hd|exact X1|apply mext_refl].
-    + unfold good. rewrite Hx0. exact G1.
-  - (* mixin *)
-    rewrite Hnow in Hc.
-    destruct (field_loop (conv f c) fs st) as [[ys st1]|] eqn:El; [|discriminate]. injection Hc as <- <-.
+    - intros d y' Hd. rewrite M1 in *. eapply good_stable; [apply HM; exact Hd|exact X1|apply mext_refl].
+    - apply Hiff. exact G1. }
+  destruct nd0 as [t|fs|fs|ts|ct m].
+  - apply (Hleaf _ eq_refl Hc). unfold good. rewrite Hx0. tauto.
+  - destruct (field_loop (conv f c) fs st) as [[ys st1]|] eqn:El; [|discriminate]. injection Hc as <- <-.
     pose proof (children_src x fs (or_introl Hx0)) as Hch.
     destruct (field_loop_ok (conv f c) x (fun x' _ => IH x') fs st ys st1 Hch H HM El) as (H1 & X1 & M1 & Me1 & K1 & F1).
     pose proof (hi_len _ H1) as Hlen1.
@@ -412,100 +281,96 @@ Proof.
     split; [|split; [exact Me1|split; [exact K1|]]].
     + intros d y' Hd. simpl in *. eapply good_stable; [apply M1; exact Hd|apply ext_app|apply mext_refl].
     + unfold good. rewrite Hx0. exists ys. rewrite nth_error_snoc. split; [auto|]. split; [exact Hlen1|exact F1].
-  - (* spatial *)
-    rewrite Hnow in Hc.
-    destruct (leaf_loop c fs [] st) as [[ys st1]|] eqn:El; [|discriminate]. injection Hc as <- <-.
+  - destruct (field_loop (conv f c) fs st) as [[ys st1]|] eqn:El; [|discriminate]. injection Hc as <- <-.
     pose proof (children_src x fs (or_intror Hx0)) as Hch.
-    assert (Hch' : Forall (fun x => exists nd, nth_error h0 x = Some nd) fs)
-      by (eapply Forall_impl; [|exact Hch]; intros a [_ Ha]; exact Ha).
-    destruct (leaf_loop_ok fs [] st ys st1 H Hch' ltac:(intros a b Hab; discriminate) El) as (H1 & X1 & F1 & M1).
+    destruct (field_loop_ok (conv f c) x (fun x' _ => IH x') fs st ys st1 Hch H HM El) as (H1 & X1 & M1 & Me1 & K1 & F1).
     pose proof (hi_len _ H1) as Hlen1.
     split; [apply HI_app; auto|]. simpl.
     split; [eapply ext_trans; [exact X1|apply ext_app]|].
-    split; [|split; [rewrite M1; apply mext_refl|split; [intros; now rewrite M1|]]].
-    + intros d y' Hd. simpl in *. rewrite M1 in *.
-      eapply good_stable; [apply HM; exact Hd|eapply ext_trans; [exact X1|apply ext_app]|apply mext_refl].
-    + unfold good. rewrite Hx0. exists ys. rewrite nth_error_snoc. split; [auto|]. split; [exact Hlen1|].
-      eapply Forall2_impl; [|exact F1]. intros a b Hab. eapply leaf_good_stable; [exact Hab|apply ext_app].
-  - (* module *)
-    destruct Hnow as (ts1 & Hnow & Hpre). rewrite Hnow in Hc.
-    destruct (conv_leaf_ok st x _ _ y st' H Hx0 Hnow Hc) as (H1 & X1 & G1 & M1).
-    split; [auto|]. split; [auto|]. split; [|split; [rewrite M1; apply mext_refl|split; [intros; now rewrite M1|]]].
-    + intros d y' Hd. rewrite M1 in *. eapply good_stable; [apply HM; exact Hd|exact X1|apply mext_refl].
-    + unfold good. rewrite Hx0. exact G1.
-  - rewrite Hnow in Hc. destruct (conv_leaf_ok st x _ _ y st' H Hx0 Hnow Hc) as (H1 & X1 & G1 & M1).
-    split; [auto|]. split; [auto|]. split; [|split; [rewrite M1; apply mext_refl|split; [intros; now rewrite M1|]]].
-    + intros d y' Hd. rewrite M1 in *. eapply good_stable; [apply HM; exact Hd|exact X1|apply mext_refl].
-    + unfold good. rewrite Hx0. exact G1.
+    split; [|split; [exact Me1|split; [exact K1|]]].
+    + intros d y' Hd. simpl in *. eapply good_stable; [apply M1; exact Hd|apply ext_app|apply mext_refl].
+    + unfold good. rewrite Hx0. exists ys. rewrite nth_error_snoc. split; [auto|]. split; [exact Hlen1|exact F1].
+  - apply (Hleaf _ eq_refl Hc). unfold good. rewrite Hx0. tauto.
+  - apply (Hleaf _ eq_refl Hc). unfold good. rewrite Hx0. tauto.
 Qed.
 
 (* ---------------------------------------------------------------------------------------------- *)
 (* the whole call                                                                                  *)
 (* ---------------------------------------------------------------------------------------------- *)
+Lemma HI_init : HI (mkS h0 [] nsb).
+Proof. constructor; simpl; auto using ext_refl. Qed.
+Lemma MI_init : MI (mkS h0 [] nsb).
+Proof. intros d y Hd; discriminate. Qed.
+
 Lemma top_ok root r st' : root < length h0 -> to_top c h0 nsb root = Some (r, st') ->
   HI st' /\ MI st' /\ good (s_memo st') (s_heap st') root r.
 Proof.
   intros Hr Ht. unfold to_top in Ht.
-  assert (H0 : HI (mkS h0 [] nsb)).
-  { constructor; simpl; auto.
-    intros i n Hi. destruct n; simpl; auto. eexists; split; eauto. apply Forall2_refl_eq. intros; left; reflexivity. }
-  assert (M0 : MI (mkS h0 [] nsb)) by (intros d y Hd; discriminate).
-  destruct (conv_ok _ root _ _ _ (lt_nth_error _ _ Hr) H0 M0 Ht) as (H1 & _ & M1 & _ & _ & G1). auto.
+  destruct (conv_ok _ root _ _ _ (lt_nth_error _ _ Hr) HI_init MI_init Ht) as (H1 & _ & M1 & _ & _ & G1). auto.
 Qed.
-
-Lemma leaf_good_good M hp a b : leaf_good hp a b -> good M hp a b.
-Proof. unfold good, leaf_good. destruct (nth_error h0 a) as [[?|?|?|?|? ?]|]; auto; contradiction. Qed.
 
 Section Final.
 Variable M : list (nat * nat).
 Variable H : heap.
 Hypothesis HMI : forall d y, lookup d M = Some y -> good M H d y.
 
+Lemma good_children d y fs : good M H d y ->
+  (nth_error h0 d = Some (NMixin fs) \/ nth_error h0 d = Some (NSpatial fs)) ->
+  exists ys, (nth_error H y = Some (NMixin ys) \/ nth_error H y = Some (NSpatial ys))
+             /\ Forall2 (fun a b => lookup a M = Some b) fs ys.
+Proof.
+  unfold good. intros Hg [E|E]; rewrite E in Hg; destruct Hg as (ys & Hy & _ & HF); eauto.
+Qed.
+
+Lemma resolve_step h d i q : forall fs, (nth_error h d = Some (NMixin fs) \/ nth_error h d = Some (NSpatial fs)) ->
+  resolve h d (i :: q) = match nth_error fs i with Some x => resolve h x q | None => None end.
+Proof. intros fs [E|E]; simpl; rewrite E; reflexivity. Qed.
+
+Lemma resolve_container h d i q x : resolve h d (i :: q) = Some x ->
+  exists fs, nth_error h d = Some (NMixin fs) \/ nth_error h d = Some (NSpatial fs).
+Proof. simpl. destruct (nth_error h d) as [[?|fs|fs|?|? ?]|]; try discriminate; eauto. Qed.
+
+(* every non-empty path ends in the memo's image of the source object *)
+Lemma resolve_memo p : forall d y x, p <> [] -> good M H d y -> resolve h0 d p = Some x ->
+  exists z, lookup x M = Some z /\ resolve H y p = Some z.
+Proof.
+  induction p as [|i q IH]; intros d y x Hne Hg Hr; [congruence|].
+  destruct (resolve_container _ _ _ _ _ Hr) as (fs & Ed).
+  rewrite (resolve_step _ _ _ _ fs Ed) in Hr. destruct (nth_error fs i) as [a|] eqn:Ea; [|discriminate].
+  destruct (good_children d y fs Hg Ed) as (ys & Ey & HF).
+  destruct (Forall2_nth_l _ _ _ _ _ HF Ea) as (b & Hb & Hab).
+  rewrite (resolve_step _ _ _ _ ys Ey), Hb.
+  destruct q as [|j q'].
+  - simpl in *. injection Hr as <-. eauto.
+  - apply (IH a b x ltac:(discriminate) (HMI _ _ Hab) Hr).
+Qed.
+
 Lemma resolve_good p : forall d y x, good M H d y -> resolve h0 d p = Some x ->
   exists z, resolve H y p = Some z /\ good M H x z.
 Proof.
-  induction p as [|i q IH]; intros d y x Hg Hr; simpl in Hr.
-  - injection Hr as <-. exists y. split; auto.
-  - unfold good in Hg. destruct (nth_error h0 d) as [[t|fs|fs|ts|ct m]|] eqn:Ed; try discriminate.
-    + destruct (nth_error fs i) as [a|] eqn:Ea; [|discriminate].
-      destruct Hg as (ys & Hy & _ & HF). destruct (Forall2_nth_l _ _ _ _ _ HF Ea) as (b & Hb & Hab).
-      destruct (IH a b x (HMI _ _ Hab) Hr) as (z & Hz & Hgz). exists z. split; auto. simpl. now rewrite Hy, Hb.
-    + destruct (nth_error fs i) as [a|] eqn:Ea; [|discriminate].
-      destruct Hg as (ys & Hy & _ & HF). destruct (Forall2_nth_l _ _ _ _ _ HF Ea) as (b & Hb & Hab).
-      destruct (IH a b x (leaf_good_good _ _ _ _ Hab) Hr) as (z & Hz & Hgz). exists z. split; auto. simpl. now rewrite Hy, Hb.
+  intros d y x Hg Hr. destruct p as [|i q].
+  - simpl in Hr. injection Hr as <-. exists y. split; auto.
+  - destruct (resolve_memo (i :: q) d y x ltac:(discriminate) Hg Hr) as (z & Hz & Hrz). eauto.
 Qed.
 
 Lemma resolve_good_conv p : forall d y z, good M H d y -> resolve H y p = Some z ->
   exists x, resolve h0 d p = Some x /\ good M H x z.
 Proof.
-  induction p as [|i q IH]; intros d y z Hg Hr; simpl in Hr.
-  - injection Hr as <-. exists d. split; auto.
-  - unfold good in Hg. destruct (nth_error h0 d) as [[t|fs|fs|ts|ct m]|] eqn:Ed.
-    + unfold leaf_good in Hg. rewrite Ed in Hg. destruct Hg as (t' & Hy & _). rewrite Hy in Hr. discriminate.
-    + destruct Hg as (ys & Hy & _ & HF). rewrite Hy in Hr. destruct (nth_error ys i) as [b|] eqn:Eb; [|discriminate].
-      destruct (Forall2_nth_r _ _ _ _ _ HF Eb) as (a & Ha & Hab).
-      destruct (IH a b z (HMI _ _ Hab) Hr) as (x & Hx & Hgx). exists x. split; auto. simpl. now rewrite Ed, Ha.
-    + destruct Hg as (ys & Hy & _ & HF). rewrite Hy in Hr. destruct (nth_error ys i) as [b|] eqn:Eb; [|discriminate].
-      destruct (Forall2_nth_r _ _ _ _ _ HF Eb) as (a & Ha & Hab).
-      destruct (IH a b z (leaf_good_good _ _ _ _ Hab) Hr) as (x & Hx & Hgx). exists x. split; auto. simpl. now rewrite Ed, Ha.
-    + unfold leaf_good in Hg. rewrite Ed in Hg. destruct Hg as (t' & Hy & _). rewrite Hy in Hr. discriminate.
-    + unfold leaf_good in Hg. rewrite Ed in Hg. destruct Hg as (Hy & _). rewrite Hy in Hr. discriminate.
-    + unfold leaf_good in Hg. rewrite Ed in Hg. contradiction.
-Qed.
-
-(* paths through containers that share the memo end in the memo's image *)
-Lemma resolve_g_memo p : forall d y x, p <> [] -> good M H d y -> resolve_g h0 d p = Some x ->
-  exists z, lookup x M = Some z /\ resolve H y p = Some z.
-Proof.
-  induction p as [|i q IH]; intros d y x Hne Hg Hr; [congruence|]. simpl in Hr.
-  destruct (nth_error h0 d) as [[t|fs|fs|ts|ct m]|] eqn:Ed; try discriminate.
-  destruct (nth_error fs i) as [a|] eqn:Ea; [|discriminate].
-  unfold good in Hg. rewrite Ed in Hg. destruct Hg as (ys & Hy & _ & HF).
-  destruct (Forall2_nth_l _ _ _ _ _ HF Ea) as (b & Hb & Hab).
-  destruct q as [|j q'].
-  - simpl in Hr. injection Hr as <-. exists b. split; auto. simpl. now rewrite Hy, Hb.
-  - destruct (IH a b x ltac:(discriminate) (HMI _ _ Hab) Hr) as (z & Hz & Hrz).
-    exists z. split; auto. remember (j :: q') as qq. simpl. now rewrite Hy, Hb.
+  induction p as [|i q IH]; intros d y z Hg Hr.
+  - simpl in Hr. injection Hr as <-. exists d. split; auto.
+  - destruct (resolve_container _ _ _ _ _ Hr) as (ys & Ey).
+    assert (exists fs, nth_error h0 d = Some (NMixin fs) \/ nth_error h0 d = Some (NSpatial fs)) as (fs & Ed).
+    { unfold good, leaf_good in Hg. destruct (nth_error h0 d) as [[t|fs|fs|ts|ct m]|]; eauto; exfalso.
+      - destruct Hg as (t' & Hy & _). destruct Ey; congruence.
+      - destruct Hg as (t' & Hy & _). destruct Ey; congruence.
+      - destruct Hg as (Hy & _). destruct Ey; congruence.
+      - exact Hg. }
+    destruct (good_children d y fs Hg Ed) as (ys' & Ey' & HF).
+    assert (ys' = ys) as -> by (destruct Ey, Ey'; congruence).
+    rewrite (resolve_step _ _ _ _ ys Ey) in Hr. destruct (nth_error ys i) as [b|] eqn:Eb; [|discriminate].
+    destruct (Forall2_nth_r _ _ _ _ _ HF Eb) as (a & Ha & Hab).
+    destruct (IH a b z (HMI _ _ Hab) Hr) as (x & Hx & Hgx). exists x. split; auto.
+    rewrite (resolve_step _ _ _ _ fs Ed), Ha. exact Hx.
 Qed.
 End Final.
 End Conv.
@@ -554,51 +419,49 @@ Qed.
 
 Theorem to_top_alias c h ns root r st p q x :
   wf_heap h -> root < length h -> to_top c h ns root = Some (r, st) -> p <> [] -> q <> [] ->
-  resolve_g h root p = Some x -> resolve_g h root q = Some x ->
+  resolve h root p = Some x -> resolve h root q = Some x ->
   exists z, resolve (s_heap st) r p = Some z /\ resolve (s_heap st) r q = Some z.
 Proof.
   intros Hwf Hr Ht Hp Hq Rp Rq. destruct (top_ok c h ns Hwf root r st Hr Ht) as (HH & HM & HG).
-  destruct (resolve_g_memo c h ns _ _ HM p root r x Hp HG Rp) as (z & Hz & Hrz).
-  destruct (resolve_g_memo c h ns _ _ HM q root r x Hq HG Rq) as (z' & Hz' & Hrz').
+  destruct (resolve_memo c h ns _ _ HM p root r x Hp HG Rp) as (z & Hz & Hrz).
+  destruct (resolve_memo c h ns _ _ HM q root r x Hq HG Rq) as (z' & Hz' & Hrz').
   assert (z' = z) by congruence. subst. eauto.
 Qed.
 
 Lemma Forall2_In_r {A B} (R : A -> B -> Prop) l l' b : Forall2 R l l' -> In b l' -> exists a, In a l /\ R a b.
 Proof. induction 1; simpl; intros Hi; [contradiction|]. destruct Hi as [<-|Hi]; eauto. destruct (IHForall2 Hi) as (a & ? & ?). eauto. Qed.
 
-(* copy=True: whatever is reachable in the result is new: tensors (also inside modules) live in storages that did not
-   exist before, mutable plain objects, modules and containers are new objects *)
+(* whatever is reachable in the result: containers and modules are always new objects and module tensors always live in
+   storages that did not exist before; with copy=True the same holds for every tensor and every mutable plain object *)
 Theorem to_top_fresh c h ns root r st p z :
-  wf_heap h -> root < length h -> c_copy c = true -> to_top c h ns root = Some (r, st) ->
+  wf_heap h -> root < length h -> to_top c h ns root = Some (r, st) ->
   resolve (s_heap st) r p = Some z ->
   match nth_error (s_heap st) z with
-  | Some (NTensor t') => ns <= t_storage t' /\ length h <= z
+  | Some (NTensor t') => c_copy c = true -> ns <= t_storage t' /\ length h <= z
   | Some (NModule ts') => Forall (fun t' => ns <= t_storage t') ts' /\ length h <= z
-  | Some (NPlain _ true) => length h <= z
+  | Some (NPlain _ true) => c_copy c = true -> length h <= z
   | Some (NMixin _) | Some (NSpatial _) => length h <= z
   | _ => True
   end.
 Proof.
-  intros Hwf Hr Hc Ht Hp. destruct (top_ok c h ns Hwf root r st Hr Ht) as (HH & HM & HG).
+  intros Hwf Hr Ht Hp. destruct (top_ok c h ns Hwf root r st Hr Ht) as (HH & HM & HG).
   destruct (resolve_good_conv c h ns _ _ HM p root r z HG Hp) as (x & Hx & Hgx).
   unfold good, leaf_good in Hgx. destruct (nth_error h x) as [[t|fs|fs|ts|ct m]|] eqn:Ex; try contradiction.
-  - destruct Hgx as (t' & Hy & (_ & _ & _ & Hs) & _ & Hn). rewrite Hy. split; auto.
+  - destruct Hgx as (t' & Hy & (_ & _ & _ & Hs) & _ & Hn). rewrite Hy. intros Hc. split; auto.
   - destruct Hgx as (ys & Hy & Hn & _). rewrite Hy. exact Hn.
   - destruct Hgx as (ys & Hy & Hn & _). rewrite Hy. exact Hn.
-  - destruct Hgx as (ts' & Hy & HF & _ & Hn). rewrite Hy. split; [|auto].
+  - destruct Hgx as (ts' & Hy & HF & Hn). rewrite Hy. split; [|auto].
     apply Forall_forall. intros t' Hin. destruct (Forall2_In_r _ _ _ _ HF Hin) as (a & _ & (_ & _ & _ & Hs)). auto.
   - destruct Hgx as (Hy & _ & Hn). rewrite Hy. destruct m; auto.
 Qed.
 
+(* the call only allocates: every node of the source heap is unchanged, for every copy flag *)
 Theorem to_top_source_untouched c h ns root r st :
   wf_heap h -> root < length h -> to_top c h ns root = Some (r, st) ->
-  forall i n, nth_error h i = Some n -> (c_copy c = true \/ forall ts, n <> NModule ts) ->
-  nth_error (s_heap st) i = Some n.
+  forall i n, nth_error h i = Some n -> nth_error (s_heap st) i = Some n.
 Proof.
-  intros Hwf Hr Ht i n Hi Hor. destruct (top_ok c h ns Hwf root r st Hr Ht) as (HH & _ & _).
-  destruct Hor as [Hc|Hn].
-  - exact (hi_copy _ _ _ _ HH Hc i n Hi).
-  - pose proof (hi_old _ _ _ _ HH i n Hi) as Hnow. destruct n; simpl in Hnow; auto. exfalso. eapply Hn; eauto.
+  intros Hwf Hr Ht i n Hi. destruct (top_ok c h ns Hwf root r st Hr Ht) as (HH & _ & _).
+  eapply hi_old; eauto.
 Qed.
 
 (* ---- in terms of the public calls ---------------------------------------------------------------- *)
@@ -654,7 +517,7 @@ Qed.
 
 Lemma call_alias a h ns root r h' p q x :
   wf_heap h -> root < length h -> call_top a h ns root = Some (r, h') -> p <> [] -> q <> [] ->
-  resolve_g h root p = Some x -> resolve_g h root q = Some x ->
+  resolve h root p = Some x -> resolve h root q = Some x ->
   exists z, resolve h' r p = Some z /\ resolve h' r q = Some z.
 Proof.
   intros Hwf Hr Hc Hp Hq Rp Rq. destruct (call_top_inv _ _ _ _ _ _ Hc) as (st & Ht & <-).
@@ -672,7 +535,7 @@ Proof.
   - apply in_map_iff in Hs as (t & <- & Hin). rewrite Forall_forall in Hb. exact (Hb t Hin).
 Qed.
 
-(* no storage of the result is a storage of the source; no mutable plain object / module / container is shared *)
+(* copy=True: no storage of the result is a storage of the source; no mutable plain object / module / container is shared *)
 Lemma call_fresh a h ns root r h' p z n' :
   wf_heap h -> root < length h -> heap_below ns h -> c_copy (parse a) = true ->
   call_top a h ns root = Some (r, h') -> resolve h' r p = Some z -> nth_error h' z = Some n' ->
@@ -680,19 +543,32 @@ Lemma call_fresh a h ns root r h' p z n' :
   /\ (match n' with NPlain _ false | NTensor _ => True | _ => length h <= z end).
 Proof.
   intros Hwf Hr Hb Hcp Hc Hp Hn. destruct (call_top_inv _ _ _ _ _ _ Hc) as (st & Ht & <-).
-  pose proof (to_top_fresh _ _ _ _ _ _ _ _ Hwf Hr Hcp Ht Hp) as Hf. rewrite Hn in Hf. split.
+  pose proof (to_top_fresh _ _ _ _ _ _ _ _ Hwf Hr Ht Hp) as Hf. rewrite Hn in Hf. split.
   - intros i n s Hi Hs Hs'. pose proof (heap_below_storages _ _ _ _ _ Hb Hi Hs) as Hlt.
     destruct n'; simpl in Hs'; try contradiction.
-    + destruct Hs' as [<-|[]]. destruct Hf. lia.
+    + destruct Hs' as [<-|[]]. destruct (Hf Hcp). lia.
     + destruct Hf as [Hf _]. apply in_map_iff in Hs' as (t & <- & Hin). rewrite Forall_forall in Hf.
       specialize (Hf t Hin). lia.
   - destruct n' as [?|?|?|?|? []]; try tauto; auto.
 Qed.
 
+(* for EVERY copy flag: module fields and containers of the result are new objects and module tensors never share a
+   storage with the source (the module is deep-copied before Module._apply) *)
+Lemma call_module_fresh a h ns root r h' p z ts' :
+  wf_heap h -> root < length h -> heap_below ns h ->
+  call_top a h ns root = Some (r, h') -> resolve h' r p = Some z -> nth_error h' z = Some (NModule ts') ->
+  length h <= z /\ forall i n s, nth_error h i = Some n -> In s (storages n) -> ~ In s (map t_storage ts').
+Proof.
+  intros Hwf Hr Hb Hc Hp Hn. destruct (call_top_inv _ _ _ _ _ _ Hc) as (st & Ht & <-).
+  pose proof (to_top_fresh _ _ _ _ _ _ _ _ Hwf Hr Ht Hp) as Hf. rewrite Hn in Hf. destruct Hf as [Hf Hz]. split; auto.
+  intros i n s Hi Hs Hs'. pose proof (heap_below_storages _ _ _ _ _ Hb Hi Hs) as Hlt.
+  apply in_map_iff in Hs' as (t & <- & Hin). rewrite Forall_forall in Hf. specialize (Hf t Hin). lia.
+Qed.
+
 Lemma call_source_untouched a h ns root r h' :
   wf_heap h -> root < length h -> call_top a h ns root = Some (r, h') ->
-  forall i n, nth_error h i = Some n -> (c_copy (parse a) = true \/ forall ts, n <> NModule ts) -> nth_error h' i = Some n.
+  forall i n, nth_error h i = Some n -> nth_error h' i = Some n.
 Proof.
-  intros Hwf Hr Hc i n Hi Hor. destruct (call_top_inv _ _ _ _ _ _ Hc) as (st & Ht & <-).
+  intros Hwf Hr Hc i n Hi. destruct (call_top_inv _ _ _ _ _ _ Hc) as (st & Ht & <-).
   eapply to_top_source_untouched; eauto.
 Qed.
